@@ -6,6 +6,7 @@
 //   ctx                 print every field of YR_SCAN_CONTEXT that outlives a scan, canonicalised
 //   hcb                 install the wrapping callback on the current scanner: script action 3 = sleep 1.1 s, continue
 //   lasterr             yr_scanner_last_error_string / rule identifiers
+//   scanproc            yr_scanner_scan_proc(getpid())
 //   hblocks start|resume  scan the block list (blocks/notready of h_scan) with an iterator that survives the call
 #define main hscan_main
 #define run_case hscan_run_case
@@ -120,6 +121,15 @@ static void hist_cmd(HS* s, char* line)
     free(b);
     free(pat);
     free(pre);
+  }
+  else if (!strcmp(c, "scanproc"))
+  {
+    // yr_scanner_scan_proc on this very process (what it finds depends on the process image: only rc and the
+    // scanner's state afterwards are meant to be compared)
+    s->msg_index = 0;
+    fprintf(o, "scan msgs=");
+    int rc = yr_scanner_scan_proc(s->scanner[s->cur], (int) getpid());
+    fprintf(o, " rc=%d\n", rc);
   }
   else if (!strcmp(c, "blocks"))
   {
